@@ -963,6 +963,33 @@ impl<'s> Runner<'s> {
                     }
                 }
             }
+            Class::ProbePktLoop => {
+                if plen < prog.min_pkt {
+                    return None;
+                }
+                let (count, step, imm) = ((prog.p1 & 0xff) as usize, ((prog.p1 >> 8) & 0xffff) as usize, (prog.p1 >> 24) as usize);
+                let pk = &self.sc.packets[pkt];
+                let mut acc = 0u64;
+                for k in 0..count {
+                    let at = prog.p0 as usize + k * step + imm;
+                    let mut word = 0u64;
+                    for j in (0..prog.w as usize).rev() {
+                        word = (word << 8) | pk[at + j] as u64;
+                    }
+                    acc = acc.wrapping_mul(31).wrapping_add(word);
+                }
+                let expected = ((acc & 0xff_ffff) << 8) | prog.tag as u64;
+                if let Outcome::Ok(v) = obs.outcome {
+                    if v & 0xff != prog.tag as u64 || v >> 32 != 0 {
+                        return None;
+                    }
+                    self.counters.inc("c09_pkt_checks");
+                    self.counters.inc_dyn(format!("c09_checked/{}/{}/{}", kind.name(), engine.name(), prog.class.name()));
+                    if v != expected {
+                        return self.c09(format!("packet-load-base/{}", engine.name()), at, format!("{}: {} loads of {} byte(s) in a loop (index register starting at {}, step {}, immediate {}) fold to {:#x}, the packet says {:#x}", who, count, prog.w, prog.p0, step, imm, v >> 8, expected >> 8));
+                    }
+                }
+            }
             Class::ProbePktChain => {
                 if plen < prog.min_pkt {
                     return None;
